@@ -278,6 +278,27 @@ impl Model {
         )
     }
 
+    /// every file in the layer's env directories is `NAME.<known behaviour>`
+    fn env_is_writer_shaped(&self, i: usize) -> bool {
+        let l = self.ldir(i);
+        for d in ["env", "env.build", "env.launch"] {
+            let dir = join(&l, d.as_bytes());
+            for (k, n) in self.snap.beneath(&dir) {
+                if n.is_file() {
+                    let name = k.rsplit(|c| *c == b'/').next().unwrap_or(k);
+                    let ok = name
+                        .iter()
+                        .rposition(|c| *c == b'.')
+                        .is_some_and(|i| i > 0 && crate::envmodel::Beh::from_suffix(&name[i + 1..]).is_some());
+                    if !ok {
+                        return false;
+                    }
+                }
+            }
+        }
+        true
+    }
+
     fn env_of(&self, i: usize) -> EnvModel {
         EnvModel::read_layer(&self.snap, &self.ldir(i), &self.root_abs)
     }
@@ -442,6 +463,11 @@ impl Model {
                 !self.snap.contains(&self.ldir(*layer)) || self.dir_is_real_dir(*layer)
             }
             Op::Handle { layer, kind, strategy, migration, result, .. } => {
+                // Hand-placed files in env*/ (suffix-less, unknown suffix) belong to the environment
+                // reader's side of C03; what a trait-API keep/migration does to them is not asserted.
+                if !self.env_is_writer_shaped(*layer) {
+                    return false;
+                }
                 if self.top_is_symlink(*layer) {
                     if !self.dir_exists(*layer) || !self.snap.contains(&self.ltoml(*layer)) {
                         return false;
@@ -484,6 +510,12 @@ impl Model {
                 self.live.contains(layer)
                     && self.dir_is_real_dir(*layer)
                     && self.can_place(&self.ldir(*layer), &file.path, true)
+            }
+            Op::HardLink { layer, path, to } => {
+                self.live.contains(layer)
+                    && self.dir_is_real_dir(*layer)
+                    && self.can_place(&self.ldir(*layer), path, false)
+                    && self.snap.get(to).is_some_and(Node::is_file)
             }
             Op::MkDir { layer, path, .. } | Op::Symlink { layer, path, .. } => {
                 self.live.contains(layer)
@@ -638,6 +670,19 @@ impl Model {
                 self.snap.insert(full, Node::Symlink { target: t });
                 Expectation::simple(ExpResult::NoCall)
             }
+            Op::HardLink { layer, path, to } => {
+                let l = self.ldir(*layer);
+                let comps: Vec<&[u8]> = path.split(|c| *c == b'/').collect();
+                let mut cur = l.clone();
+                for c in &comps[..comps.len() - 1] {
+                    cur = join(&cur, c);
+                    self.snap.nodes.entry(cur.clone()).or_insert_with(Node::dir);
+                }
+                if let Some(n) = self.snap.get(to).cloned() {
+                    self.snap.insert(join(&l, path), n);
+                }
+                Expectation::simple(ExpResult::NoCall)
+            }
             Op::Implicit { layer, which, kind } => {
                 let l = self.ldir(*layer);
                 let full = join(&l, IMPLICIT_NAMES[*which].as_bytes());
@@ -670,6 +715,15 @@ impl Model {
                             target: p("no-such-target"),
                         },
                     ),
+                    PathKind::LinkLoop => {
+                        let t = IMPLICIT_NAMES[*which].as_bytes().to_vec();
+                        self.snap.insert(full, Node::Symlink { target: t });
+                    }
+                    PathKind::LinkThroughFile => {
+                        // outside/canary/file_a is a regular file: a path beneath it cannot resolve
+                        let t = self.link_target_bytes(&full, &LinkTarget::Abs(p("outside/canary/file_a/sub")));
+                        self.snap.insert(full, Node::Symlink { target: t });
+                    }
                 }
                 Expectation::simple(ExpResult::NoCall)
             }
@@ -941,9 +995,8 @@ impl Model {
                                 done!(r, unc);
                             }
                             Strategy::Keep => {
+                                // what was there before, with only the types refreshed
                                 self.write_toml(i, Some(types), md.clone());
-                                let explicit = pre_env.explicit_only();
-                                self.set_env_dirs(i, &explicit);
                                 path.push_str("keep");
                                 let env = self.env_of(i);
                                 // on disk: everything the previous build left; in the returned
